@@ -6,6 +6,8 @@ import (
 	"google.golang.org/grpc/codes"
 	"google.golang.org/grpc/status"
 	"google.golang.org/protobuf/proto"
+
+	"github.com/smart-core-os/sc-golang/internal/verifhook"
 )
 
 // CreateFn is called to generate a message based on the ID the message is going to have.
@@ -38,11 +40,13 @@ func GetAndUpdate(mu *sync.RWMutex, get GetFn, change ChangeFn, save SaveFn) (ol
 		return nil, nil, err
 	}
 
+	verifhook.At("gau.afterRead")
 	newValue = proto.Clone(oldValue)
 	if newValue, err = change(oldValue, newValue); err != nil {
 		return oldValue, newValue, err
 	}
 
+	verifhook.At("gau.beforeLock")
 	mu.Lock()
 	defer mu.Unlock()
 	oldValueAgain, _ := get()
